@@ -28,11 +28,23 @@ POOL = [''.join(p) for n in range(0, 4) for p in itertools.product('1a', repeat=
     ['é', 'é', ' ', '  ', ':', '-', ',', ' AND ', '2:', '1:1', '1:', ':1', '0', '10', '01', 'None', 'nan', 'A', 'A1', 'a ', ' a', '1.0', '1e0']
 
 
+GROUPS = [
+    ['', '1', '11', '111', 'a', 'a1', '1a', 'aa', 'a11'],            # prefixes / suffixes of one another
+    ['', ':', '1:', ':1', '1:1', '2:', '1', '2', '0:', '3:1:'],       # look like length prefixes / separators
+    ['', '-', ',', ' AND ', ' ', '  ', 'AND', ' AND', 'AND '],         # separator-like
+    ['a', 'A', 'a ', ' a', 'é', 'e\u0301', 'E\u0301', 'É'],              # case / blanks / unicode normalisation variants
+    ['0', '00', '01', '10', '1.0', '1e0', '1', '+1', 'None', 'nan'],   # numeric spellings
+]
+
+
 @st.composite
 def case_strategy(draw):
     k = draw(st.integers(2, 5))
     nrows = draw(st.integers(2, 40))
-    sub = draw(st.lists(st.sampled_from(POOL), min_size=1, max_size=6, unique=True))
+    # values are drawn from one confusable group (plus a few from the whole pool), so that collisions of naive encodings are likely
+    group = draw(st.sampled_from(GROUPS))
+    sub = draw(st.lists(st.sampled_from(group), min_size=1, max_size=5, unique=True))
+    sub = list(dict.fromkeys(sub + draw(st.lists(st.sampled_from(POOL), max_size=2))))
     cols = [draw(st.lists(st.sampled_from(sub), min_size=nrows, max_size=nrows)) for _ in range(k)]
     label = draw(st.lists(st.sampled_from(['0', '1']), min_size=nrows, max_size=nrows))
     order = draw(st.integers(2, min(4, k)))
